@@ -194,6 +194,20 @@ def check_vector(v):
             d = bnp.compute(mk().get_data())
             res[nm] = [[c, int(s), int(e)] + ([bool(x)] if hasattr(d, "value") else []) for c, s, e, *x in
                        zip(d.chromosome.tolist(), d.start.tolist(), d.stop.tolist(), *([d.value.tolist()] if hasattr(d, "value") else []))]
+        # merged intervals, with the first entry of every contig starting at 0 and the last one reaching the contig's end
+        first = np.array([i == 0 or keys[i - 1] != keys[i] for i in range(n)])
+        last = np.array([i == n - 1 or keys[i + 1] != keys[i] for i in range(n)])
+        ms = np.where(first, 0, starts)
+        me = np.where(last, SIZE, starts + 1)
+
+        def miv():
+            if streamed:
+                return g.get_intervals(NpDataclassStream(iter([Interval(keys[x:y], ms[x:y], me[x:y]) for x, y in zip([0] + cuts[:-1], cuts)]), dataclass=Interval))
+            return g.get_intervals(Interval(keys, ms, me))
+        for dist in (0, 1, 2):
+            mi = miv().merged(dist)
+            d = (mi.compute() if streamed else mi).get_data()
+            res["merged(%d)" % dist] = [[c.to_string(), int(s), int(e)] for c, s, e in zip(d.chromosome, d.start.tolist(), d.stop.tolist())]
         # values of the pile-up under in-memory stranded windows ('+', '-' and '.'), and their mean profile
         from bionumpy.datatypes import Bed6
         wn = [nm for nm in KEYNAMES.values() for _ in range(3)]
@@ -210,14 +224,79 @@ def check_vector(v):
     if so[0] != "ok" or mo[0] != "ok":
         if so[0] != mo[0]:
             rep("genomic pipeline", str(mo)[:300], str(so)[:300], detail="raises in one mode only")
+        else:
+            # valid data: the harness must be able to evaluate the pipelines; nothing is compared otherwise
+            raise core.MachineryFailure("C11 genomic pipelines raise streamed and in memory: %s" % str(mo)[:300])
     else:
         for k in mo[1]:
             want_k, got_k = mo[1][k], so[1][k]
+            if k.startswith("merged"):
+                # meaning of merging within a contig (Intervals.tla: Merge): neighbours closer than the distance join, contigs never do
+                exp, dist = [], int(k[7:-1])
+                for c, a, b in zip(keys, (np.where(np.array([i == 0 or keys[i - 1] != keys[i] for i in range(n)]), 0, starts)).tolist(),
+                                   (np.where(np.array([i == n - 1 or keys[i + 1] != keys[i] for i in range(n)]), SIZE, starts + 1)).tolist()):
+                    if exp and exp[-1][0] == c and a <= exp[-1][2] + dist:
+                        exp[-1][2] = max(exp[-1][2], int(b))
+                    else:
+                        exp.append([c, int(a), int(b)])
+                if want_k != exp:
+                    rep("pipeline " + k + " (in memory)", exp, want_k)
             if k.endswith("get_data"):
                 want_k, got_k = _expand(want_k), _expand(got_k)      # records may be split differently; compare what they describe
             if want_k != got_k:
                 rep("pipeline " + k, mo[1][k], so[1][k])
     return {"n": calls, "nt": nt, "bad": bad}
+
+
+def check_big(v):
+    """Counts over more than a million elements (the counting code switches to blocks there): the dataset of one vector repeated m times,
+    in memory and as a stream; both must be m times the counts of the small dataset (BinsOfRepeat)."""
+    import bionumpy as bnp
+    from bionumpy.streams import BnpStream
+    from bionumpy.streams.reductions import bincount
+    from bionumpy.sequence import count_kmers
+    from bionumpy.sequence.count_encoded import count_encoded
+    data = v["data"]
+    seqs = ["ACGT"[(e["v"] + i) % 4] * 2 + "ACGT"[(i * 3) % 4] + "ACGT"[e["v"] % 4] for i, e in enumerate(data)]
+    bad, calls = [], 0
+    small = count_kmers(bnp.as_encoded_array(seqs, bnp.DNAEncoding), 2).counts
+    small1 = count_encoded(bnp.as_encoded_array("".join(seqs), bnp.DNAEncoding)).counts
+    for target in (1_000_000, 1_000_001, 2_300_000, 3_000_000):
+        per = 3 * len(seqs)
+        m = -(-target // per)
+        if target == 1_000_000 and per * m != target:
+            # an exact multiple of the block size when the dataset allows it
+            m = target // per
+        big = bnp.as_encoded_array(seqs * m, bnp.DNAEncoding)
+        cutpoints = [0, len(seqs), len(seqs) * (m - 1), len(seqs) * m]
+        want = [int(x) * m for x in small.tolist()]
+        o = outcome(lambda: [int(x) for x in count_kmers(big, 2).counts.tolist()])
+        so = outcome(lambda: [int(x) for x in count_kmers(BnpStream(iter([big[a:b] for a, b in zip(cutpoints[:-1], cutpoints[1:]) if b > a])), 2).counts.tolist()])
+        calls += 2
+        for name, got in (("in memory", o), ("streamed", so)):
+            if got != ("ok", want):
+                bad.append({"what": "count_kmers over %d k-mers (%s) is not m times the counts of the repeated dataset" % (per * m, name),
+                            "tags": {"op": "count_kmers[big]", "mode": name, "kmers": per * m}, "vector": v, "expected": want, "observed": str(got)[:300]})
+        # letters: 4 per sequence
+        m1 = -(-target // (4 * len(seqs)))
+        flat = bnp.as_encoded_array("".join(seqs) * m1, bnp.DNAEncoding)
+        o = outcome(lambda: [int(x) for x in count_encoded(flat).counts.tolist()])
+        calls += 1
+        want1 = [int(x) * m1 for x in small1.tolist()]
+        if o != ("ok", want1):
+            bad.append({"what": "count_encoded over %d letters is not m times the counts of the repeated text" % len(flat),
+                        "tags": {"op": "count_encoded[big]", "letters": len(flat)}, "vector": v, "expected": want1, "observed": str(o)[:300]})
+    vals = np.array([e["v"] for e in data] * (-(-1_200_000 // len(data))), dtype=int)
+    mm = len(vals) // len(data)
+    o = outcome(lambda: [int(x) for x in bincount(BnpStream(iter([vals[:7], vals[7:1_100_000], vals[1_100_000:]]))).tolist()])
+    calls += 1
+    want = [b * mm for b in v["bins"]]
+    while want and want[-1] == 0:
+        want.pop()
+    if o != ("ok", want):
+        bad.append({"what": "bincount over a stream of %d values is not m times the counts of the repeated dataset" % len(vals),
+                    "tags": {"op": "bincount[big]"}, "vector": v, "expected": want, "observed": str(o)[:300]})
+    return {"n": calls, "nt": [json.dumps(["big", data])], "bad": bad}
 
 
 GRAPH_RULE = "graph part: one case = (graph shape, two-column dataset, cut set) = one completed behaviour of Graph.tla"
@@ -314,7 +393,7 @@ def _expand(recs):
 
 def run(ctx):
     quick = ctx.tier == "quick"
-    invs = ["FoldRight", "RechunkRight", "LinesRight", "Final", "Emit"]
+    invs = ["FoldRight", "RechunkRight", "LinesRight", "Final", "BinsOfRepeat", "Emit"]
     vectors = []
     plans = [dict(MaxN=5, Keys=[1, 2, 3], Vals=[0, 1, 2], NChunk=2, FixedVals=True),
              dict(MaxN=4, Keys=[1, 2], Vals=[0, 1, 2], NChunk=3, FixedVals=False)] if quick else \
@@ -327,6 +406,9 @@ def run(ctx):
         vectors += res.vectors
     ctx.sample(vectors[17])
     ctx.absorb(core.pmap(check_vector, vectors, chunk=20))
+    # counts over more than a million elements: a few datasets repeated (additivity TLC-checked as BinsOfRepeat)
+    full = [v for v in vectors if len(v["data"]) >= 4]
+    ctx.absorb(core.pmap(check_big, [full[(k * 37) % len(full)] for k in range(3 if quick else 12)], chunk=1))
     # the computation graph itself (spec/Graph.tla): every shape x dataset x cut set
     gres = ctx.tlc("MC_Graph", tag="MC_Graph", spec="Spec", constants={"Shapes": "<- AllShapes", "MaxN": 3 if quick else 4, "Vals": [1, 2], "Memo": True},
                    invariants=["NoAssert", "LockStep", "InStep", "AllLevel", "Final", "Emit"], coverage=True)
